@@ -20,6 +20,7 @@ import itertools
 import json
 import math
 import os
+import re
 import tempfile
 from fractions import Fraction
 from typing import Any
@@ -810,6 +811,292 @@ def neighbours(case, rng):
         yield c
 
 
+# --------------------------------------------------------------------------- sessions (one approximator, many calls)
+
+
+def sample_x(rng, n: int, ds, hs: list[Fraction]) -> list[Fraction]:
+    x = []
+    for c in range(n):
+        if not ds:
+            x.append(Fraction(0) if rng.chance(0.25) else Fraction(rng.randint(-16, 16), 4))
+            continue
+        lb, ub = ds["lb"][c], ds["ub"][c]
+        normed = ds["normalize"] and lb is not None and ub is not None
+        wl = Fraction(0) if normed else (None if lb is None else Fraction(lb))
+        wu = Fraction(1) if normed else (None if ub is None else Fraction(ub))
+        h = hs[c]
+        r = rng.random()
+        if r < 0.3 and wu is not None:
+            v = wu
+        elif r < 0.4 and wl is not None:
+            v = wl
+        elif r < 0.6 and wu is not None:
+            v = wu - h / 2
+        elif wl is not None and wu is not None:
+            v = wl + (wu - wl) * Fraction(rng.randint(1, 15), 16)
+        elif wu is not None:
+            v = wu - Fraction(rng.randint(1, 16), 4)
+        elif wl is not None:
+            v = wl + Fraction(rng.randint(1, 16), 4)
+        else:
+            v = Fraction(rng.randint(-16, 16), 4)
+        x.append(v)
+    return x
+
+
+def gen_session(rng) -> dict[str, Any]:
+    """One approximator object used for several calls: f_gradient with step None / scalar / array and subsets in any
+    order, the `step` setter, generate_perturbations, kwargs forwarded to the function, the same input array reused
+    in place between the calls, compute_optimal_step (call points only) as the last call."""
+    base = gen_exact_case(rng, with_ds=rng.chance(0.6))
+    scheme, n = base["scheme"], base["n"]
+    ds = base["ds"]
+    deg = max(e for p in base["polys"] for _, ex in p for e in ex)
+    smax = {0: 20, 1: 20, 2: 14, 3: 10, 4: 9}[deg]
+
+    def rand_step(allow_vec=True):
+        if allow_vec and rng.chance(0.35):
+            return [rat(Fraction(1, 2 ** rng.randint(8, smax))) for _ in range(n)]
+        return rat(Fraction(1, 2 ** rng.randint(8, smax)))
+
+    sess = {"scheme": scheme, "n": n, "m": base["m"], "polys": base["polys"], "ds": ds,
+            "ctor_step": rand_step(allow_vec=scheme != "cs"), "ops": [], "parallel": rng.chance(0.15)}
+    cur = sess["ctor_step"]
+    for _ in range(rng.randint(2, 6)):
+        kind = rng.pick(["grad", "grad", "grad", "gen", "setstep"])
+        if kind == "setstep":
+            st = rand_step(allow_vec=scheme != "cs")
+            sess["ops"].append({"op": "setstep", "step": st})
+            cur = st
+            continue
+        for _try in range(10):
+            st = None if rng.chance(0.4) else rand_step()
+            eff = cur if st is None else st
+            hs = [Fraction(v) for v in eff] if isinstance(eff, list) else [Fraction(eff)] * n
+            x = sample_x(rng, n, ds, hs)
+            idx = rng.sample(range(n), rng.randint(0, n))
+            op = {"op": kind, "x": [rat(v) for v in x], "step": st, "idx": idx, "scale": rng.pick([1, 1, 2, 4])}
+            eq = session_case(sess, op, cur)
+            if in_scope(eq) and exact_ok(eq):
+                sess["ops"].append(op)
+                break
+    if scheme != "cs" and ds and rng.chance(0.3) and not isinstance(cur, list):
+        hs = [Fraction(cur)] * n
+        sess["ops"].append({"op": "optstep", "x": [rat(v) for v in sample_x(rng, n, ds, hs)]})
+    return sess
+
+
+def session_case(sess, op, cur_step) -> dict[str, Any]:
+    """The single-call case equivalent to one op of a session (property text: step None = the default step)."""
+    st = op.get("step")
+    scale = op.get("scale", 1)
+    polys = [[[rat(Fraction(c) * scale), ex] for c, ex in p] for p in sess["polys"]]
+    return {"scheme": sess["scheme"], "n": sess["n"], "m": sess["m"], "polys": polys, "x": op["x"],
+            "idx": op.get("idx", []), "step": cur_step if st is None else st, "ds": sess["ds"], "parallel": False,
+            "scalar_out": False, "step_via": "arg"}
+
+
+def _step_py(st):
+    return np.array([float(Fraction(s)) for s in st]) if isinstance(st, list) else float(Fraction(st))
+
+
+def run_session(sess) -> list[dict[str, Any]]:
+    from gemseo.utils.derivatives.centered_differences import CenteredDifferences
+    from gemseo.utils.derivatives.complex_step import ComplexStep
+    from gemseo.utils.derivatives.finite_differences import FirstOrderFD
+
+    cls = {"fd": FirstOrderFD, "cd": CenteredDifferences, "cs": ComplexStep}[sess["scheme"]]
+    log_fd = log_path = None
+    if sess.get("parallel"):
+        fd0, log_path = tempfile.mkstemp(prefix="c16sess")
+        os.close(fd0)
+        log_fd = os.open(log_path, os.O_WRONLY | os.O_APPEND)
+    fn = PolyFunction(sess["polys"], record_fd=log_fd)
+    kwargs: dict[str, Any] = {}
+    if sess["ds"]:
+        kwargs["design_space"] = make_design_space(sess)
+        kwargs["normalize"] = bool(sess["ds"]["normalize"])
+    if sess.get("parallel"):
+        kwargs.update(parallel=True, n_processes=2)
+    try:
+        return _run_session_ops(sess, cls, fn, kwargs, log_path)
+    finally:
+        if log_fd is not None:
+            os.close(log_fd)
+            os.unlink(log_path)
+
+
+def _run_session_ops(sess, cls, fn, kwargs, log_path) -> list[dict[str, Any]]:
+    def all_calls():
+        return read_call_log(log_path) if log_path else fn.calls
+
+    out = []
+    try:
+        approx = cls(fn, step=_step_py(sess["ctor_step"]), **kwargs)
+    except Exception as e:  # noqa: BLE001
+        return [{"exc": common.exc_class(e), "exc_msg": "constructor: " + repr(e)[:140], "calls": []}]
+    xbuf = np.zeros(sess["n"])
+    for op in sess["ops"]:
+        o: dict[str, Any] = {}
+        start = len(all_calls())
+        try:
+            if op["op"] == "setstep":
+                approx.step = _step_py(op["step"])
+                o["ok"] = True
+            else:
+                xbuf[:] = [float(Fraction(v)) for v in op["x"]]
+                before = xbuf.copy()
+                if op["op"] == "grad":
+                    kw = {} if op["scale"] == 1 else {"scale": op["scale"]}
+                    if op["step"] is None:
+                        o["J"] = np.asarray(approx.f_gradient(xbuf, x_indices=list(op["idx"]), **kw))
+                    else:
+                        o["J"] = np.asarray(approx.f_gradient(xbuf, step=_step_py(op["step"]), x_indices=list(op["idx"]), **kw))
+                elif op["op"] == "gen":
+                    st = None if op["step"] is None else _step_py(op["step"])
+                    perts, steps = approx.generate_perturbations(sess["n"], xbuf, x_indices=list(op["idx"]), step=st)
+                    o["P"] = np.asarray(perts)
+                    o["S"] = steps
+                else:
+                    approx.compute_optimal_step(xbuf)
+                    o["ok"] = True
+                o["mutated"] = not np.array_equal(before, xbuf)
+        except Exception as e:  # noqa: BLE001
+            o["exc"] = common.exc_class(e)
+            o["exc_msg"] = repr(e)[:160]
+        o["calls"] = list(all_calls()[start:])
+        o["inexact"] = fn.inexact
+        o["fmax"] = fn.fmax
+        out.append(o)
+    return out
+
+
+def session_lines(sess) -> list[str]:
+    def st(s):
+        return "v:" + ",".join(s) if isinstance(s, list) else "s:" + s
+
+    lines = ["new " + st(sess["ctor_step"])]
+    cur = sess["ctor_step"]
+    for op in sess["ops"]:
+        if op["op"] == "setstep":
+            lines.append("setstep " + st(op["step"]))
+            cur = op["step"]
+        elif op["op"] in ("grad", "gen"):
+            eq = session_case(sess, op, cur)
+            line = case_line(eq, "ser")
+            if op["step"] is None:
+                line = re.sub(r" step=\S+", " step=default", line)
+            if op["op"] == "gen":
+                line = re.sub(r" poly=\S+", "", line.replace("grad " + sess["scheme"] + " ser", "gen " + sess["scheme"]))
+            lines.append(line)
+        else:
+            lines.append("new " + st(cur))  # compute_optimal_step is not modelled: keeps the driver in step
+    return lines
+
+
+def check_sessions(res: Result, sessions: list[dict[str, Any]]) -> None:
+    if not sessions:
+        return
+    all_lines, spans = [], []
+    for sess in sessions:
+        ls = session_lines(sess)
+        spans.append((len(all_lines), len(ls)))
+        all_lines += ls
+    answers = common.run_lean_driver(PID, all_lines)
+    for sess, (a0, cnt) in zip(sessions, spans):
+        res.evaluations += 1
+        res.count("session:parallel" if sess.get("parallel") else "session:serial")
+        res.nontrivial("session " + " | ".join(all_lines[a0 : a0 + cnt]))
+        obs = run_session(sess)
+        sch = sess["scheme"]
+        if len(obs) != len(sess["ops"]):
+            res.violate("oracle", f"{sch}-raises[session]", obs[0].get("exc_msg", "constructor failed"), {"session": sess})
+            continue
+        cur = sess["ctor_step"]
+        agree = True
+        for t, (op, o) in enumerate(zip(sess["ops"], obs)):
+            ans = answers[a0 + 1 + t]
+            res.count("session-op:" + op["op"] + ("" if op.get("step", 0) is not None else ":default-step"))
+            bad: list[tuple[str, str]] = []
+            msg = ""
+            if op["op"] == "setstep":
+                cur = op["step"]
+                if "exc" in o:
+                    bad.append((f"{sch}-raises[session-setstep]", o["exc_msg"]))
+            elif op["op"] == "grad":
+                eq = session_case(sess, op, cur)
+                bad = [(k.replace("[", "[session,"), m) for k, m in oracle(eq, o)]
+                ok, _, msg = compare(eq, o, ans)
+                msg = "" if ok else msg
+            elif op["op"] == "gen":
+                eq = session_case(sess, op, cur)
+                if "exc" in o:
+                    bad.append((f"{sch}-raises[session-gen]", o["exc_msg"]))
+                else:
+                    msg = compare_gen(eq, o, ans)
+                    if sess["ds"] and sch != "cs":
+                        for col in o["P"].T:
+                            for c, v in enumerate(col):
+                                _, up = work_bounds(eq, c)
+                                if up is not None and not F(float(np.real(v))) <= up:
+                                    bad.append((f"{sch}-exceeds-upper-bound[session-gen]", f"generate_perturbations: component {c} = {F(float(np.real(v)))} > {up}"))
+                                    break
+            else:
+                if "exc" in o:
+                    bad.append((f"{sch}-raises[session-optstep]", o["exc_msg"]))
+                for rep, _ in o["calls"]:
+                    for c, v in enumerate(rep):
+                        _, up = work_bounds({"ds": sess["ds"]}, c)
+                        if up is not None and not v <= up:
+                            bad.append((f"{sch}-exceeds-upper-bound[session-optstep]", f"compute_optimal_step called the function at component {c} = {v} > upper bound {up}"))
+                            break
+            if o.get("mutated"):
+                bad.append((f"{sch}-mutates-input[session]", f"op {t} ({op['op']}) modified the caller's input array"))
+            for key, m in bad:
+                res.count("oracle-fail:" + key)
+                res.violate("oracle", key, m, {"session": sess, "failing_op": t, "what": m})
+            if msg:
+                agree = False
+                res.disagreements += 1
+                if not bad and not any(v.kind == "oracle" for v in res.violations):
+                    res.violate("correspondence", f"session-model-vs-impl[{sch}]",
+                                f"op {t} ({op['op']}) of a session differs from the model: {msg}",
+                                {"session": sess, "failing_op": t, "protocol_lines": all_lines[a0 : a0 + cnt], "model": ans,
+                                 "correspondence": "Driver/C16.lean new/setstep/grad/gen"})
+            if op["op"] == "optstep":
+                break
+        if agree:
+            res.traces_validated += 1
+
+
+def compare_gen(eq, o, ans: str) -> str:
+    """generate_perturbations: columns in order (and the signed steps of forward differences)."""
+    if ans.startswith("E:") or ans.startswith("bad"):
+        return f"model rejects the arguments ({ans}), implementation returned perturbations"
+    ppart, spart = ans.split(" ")
+    cols = [] if ppart[2:] == "-" else [[Fraction(t) for t in c.split(",")] for c in ppart[2:].split(";")]
+    P = o["P"]
+    if P.ndim != 2 or P.shape != (eq["n"], len(cols)):
+        return f"perturbation array of shape {P.shape}, model has {len(cols)} columns of {eq['n']} components"
+    for k, col in enumerate(cols):
+        for c, mv in enumerate(col):
+            v = P[c, k]
+            got = F(float(v.imag)) if eq["scheme"] == "cs" else F(float(np.real(v)))
+            if eq["scheme"] == "cs" and float(v.real) != 0.0:
+                return f"complex perturbation [{c},{k}] has a real part {v.real}"
+            if got != mv:
+                return f"perturbation [{c},{k}]: implementation {got}, model {mv}"
+    if spart[2:] not in ("-", "[]") and eq["scheme"] == "fd":
+        ms = [Fraction(t) for t in spart[2:].split(",")]
+        try:
+            got = [F(float(v)) for v in np.broadcast_to(np.asarray(o["S"], dtype=float), (len(ms),))]
+        except ValueError:
+            return f"steps {o['S']!r} cannot be matched with {len(ms)} perturbations"
+        if got != ms:
+            return f"signed steps: implementation {got}, model {ms}"
+    return ""
+
+
 # --------------------------------------------------------------------------- discipline level
 
 
@@ -1363,12 +1650,16 @@ def add_wrong(case, rng) -> dict[str, Any]:
 def run(ctx) -> Result:
     res = Result(PID)
     res.rule = (
-        "approximator cases: scheme x ordered component subset (all ordered subsets of n<=4 systematically) x scalar/"
-        "per-component power-of-two steps 2^-8..2^-26 (cs also 2^-30..2^-300) x design space none/physical/normalised with "
-        "points on, within one step of, and inside the bounds, zero components, integer polynomials of degree<=3 (cs<=4), "
-        "1-3 outputs, scalar outputs, serial/parallel; discipline cases: named sized inputs/outputs, linearize in approximation "
-        "mode, compute_approx_jac(x_indices), check_jacobian(indices) on right and wrong analytic Jacobians. "
-        "A case is non-trivial when n>=2 or m>=2; distinct by protocol line"
+        "approximator cases (exact stream): scheme x ordered component subset (all ordered subsets of n<=4 systematically) x "
+        "scalar/per-component power-of-two steps 2^-8..2^-26 (cs also 2^-30..2^-300) passed as argument or to the constructor "
+        "x design space none/physical/normalised with points on, within one step of, and inside the bounds, zero components, "
+        "integer polynomials of degree<=3 (cs<=4), 1-3 outputs, scalar outputs, serial and multiprocessing-parallel; the same "
+        "cases through OptimizationProblem(differentiation_method) with a physical-space function; sessions (one approximator: "
+        "default step, step setter, generate_perturbations, kwargs, input array reused in place, compute_optimal_step call "
+        "points); rounded stream (decimal points/steps, default steps) with explicit rounding terms; discipline cases: named "
+        "sized inputs/outputs, linearize in approximation mode (serial/parallel, differentiated input/output subsets), "
+        "compute_approx_jac(x_indices), check_jacobian(indices) on right and wrong analytic Jacobians. "
+        "A case is non-trivial when n>=2 or m>=2 (sessions and discipline cases always); distinct by protocol line(s)"
     )
     res.assumptions = [
         "steps are positive and not larger than the width of the bounds (numerically safe range); the point lies within its bounds",
@@ -1417,6 +1708,8 @@ def run(ctx) -> Result:
     rcs = [c for c in rcs if in_scope(c)]
     check_cases(res, rcs, rng)
     res.count("stream=rounded", len(rcs))
+    # sessions: one approximator, many calls (default step, setter, generate_perturbations, kwargs, reused array)
+    check_sessions(res, [gen_session(rng) for _ in range(2500 if ctx.thorough else 250)])
     # parallel == serial
     npar = 600 if ctx.thorough else 80
     check_cases(res, [gen_exact_case(rng, res) for _ in range(npar)], rng, True, "process")
